@@ -948,6 +948,45 @@ class World:
         st = self._mutate(idx, op, impl, lambda m: m.extend(ss[:k]), "extend_failing")
         return st
 
+    def op_replace_same_ends(self, idx, op, entry):
+        """del p[i]; the removed segment dies; a NEW segment with the same start and end but another
+        interior is created right away (CPython hands it the freed address) and inserted at i.  One op, so
+        that generation and replay allocate in the same order."""
+        if not self._have(p=[op["p"]]) or op["id"] in self.segs:
+            return "skipped"
+        pr = self.paths[op["p"]]
+        i = op["i"]
+        if not (0 <= i < len(pr.model)):
+            return "skipped"
+        sid = pr.model[i]
+        rec = self.segs[sid]
+        if rec.kind not in ("Q", "C") or pr.model.count(sid) != 1 or \
+                any(sid in o.model for o in self.paths.values() if o is not pr) or len(rec.group) > 1:
+            return "skipped"
+        if pr.warm:
+            pr.mutated_after_warm = True
+            self.nontrivial = True
+        cls = QuadraticBezier if rec.kind == "Q" else CubicBezier
+        a0, b0 = rec.obj.start, rec.obj.end
+        inner = [cz(z) for z in op["inner"]][:(1 if rec.kind == "Q" else 2)]
+        if len(inner) < (1 if rec.kind == "Q" else 2):
+            return "skipped"
+        p = pr.obj
+        st = outcome(lambda: p.__delitem__(i))
+        if st[0] != "v":
+            return "raised"
+        del self.segs[sid]
+        self._memo.clear()
+        old_id = id(rec.obj)
+        rec.obj = None
+        del rec
+        new = cls(a0, *inner, b0)              # first allocation of this size after the free
+        if id(new) == old_id:
+            self.probe("new_segment_got_the_address_of_a_dead_one")
+        self.segs[op["id"]] = SegRec(op["id"], new, "new")
+        pr.model = pr.model[:i]  + pr.model[i + 1:]
+        return self._mutate(idx, op, lambda: p.insert(i, new), lambda m: m.insert(i, op["id"]), "replace_same_ends")
+
     def op_forget_seg(self, idx, op, entry):
         """the caller drops its last reference to a free segment: the object dies (and CPython will hand
         its address to the next object of that size)"""
@@ -2256,11 +2295,8 @@ class Gen:
             pts = [complex(z) for z in o.bpoints()]
             for j in range(1, len(pts) - 1):
                 pts[j] = self.pt(a)
-            self.queue.append({"op": "forget_seg", "s": sid})
-            self.queue.append({"op": "new_seg", "id": nid, "kind": w.segs[sid].kind, "pts": [zc(z) for z in pts]})
-            self.queue.append({"op": "insert", "p": pid, "i": i, "s": nid})
             self.queue.append({"op": "q", "on": "p", "id": pid, "q": "length"})
-            return {"op": "delitem", "p": pid, "i": i}
+            return {"op": "replace_same_ends", "p": pid, "i": i, "id": nid, "inner": [zc(z) for z in pts[1:-1]]}
         if m == "set_closed":
             return {"op": m, "p": pid, "value": a.random() < 0.7}
         if m == "setslice_reversed":
@@ -2593,7 +2629,7 @@ EXPECTED_PROBES = [
     "closed_flag_path_compared_equal_to_unflagged_path", "natural_RecursionError",
     "path_shares_segments_with_other_path", "path_retired_segment_edited_behind_its_back",
     "path_cloned_with_its_caches", "query_on_path_of_total_length_zero", "arcs_approximated_in_place",
-    "extend_with_failing_iterable", "segment_object_died",
+    "extend_with_failing_iterable", "new_segment_got_the_address_of_a_dead_one",
 ]
 
 
